@@ -20,9 +20,11 @@ KINDS = c05.KINDS
 COINS = ["BTC", "BCH", "LTC", "BTG"]
 
 
-def signed_scenario(coin, kind, ht, seed, few_outs=False):
+def signed_scenario(coin, kind, ht, seed, few_outs=False, solo=False):
     m, n = (2, 3) if "ms" in kind else (1, 1)
     inputs = [(kind, m, n, 0), (kind, m, n, 4), ("p2pkh", 1, 1, 9)]
+    if solo:
+        inputs = inputs[:1]       # a one-input transaction (the shape in which special outpoint values matter)
     hts = list(ht) if isinstance(ht, (list, tuple)) else [ht]
     sc = c05.Scenario(coin, inputs, seed, hts[0])
     if few_outs:
@@ -40,10 +42,10 @@ class Signed(object):
     """a fresh transaction object parsed from the bytes of a (cached, deterministic) signed scenario"""
     _cache = {}
 
-    def __init__(self, coin, kind, ht, seed, few=False):
-        key = (coin, kind, tuple(ht) if isinstance(ht, (list, tuple)) else ht, seed, few)
+    def __init__(self, coin, kind, ht, seed, few=False, solo=False):
+        key = (coin, kind, tuple(ht) if isinstance(ht, (list, tuple)) else ht, seed, few, solo)
         if key not in self._cache:
-            sc = signed_scenario(coin, kind, ht, seed, few)
+            sc = signed_scenario(coin, kind, ht, seed, few, solo)
             self._cache[key] = (sc.tx.as_bin(), list(sc.spent), list(sc.p2s))
         blob, spent, p2s = self._cache[key]
         Tx = c05.net(coin).tx
@@ -57,7 +59,8 @@ class Signed(object):
 def mutation_list(n_in, n_out):
     L = [("version", +1), ("version", -1), ("lock", +1), ("lock", -1)]
     for j in range(n_in):
-        L += [("in", j, "hash0"), ("in", j, "hash255"), ("in", j, "index+"), ("in", j, "index-"), ("in", j, "seq+"), ("in", j, "seq-"), ("in", j, "seq0")]
+        L += [("in", j, "hash0"), ("in", j, "hash255"), ("in", j, "index+"), ("in", j, "index-"), ("in", j, "seq+"), ("in", j, "seq-"), ("in", j, "seq0"),
+              ("in", j, "hashzero"), ("in", j, "indexmax")]
     for j in range(n_out):
         L += [("out", j, "amount+"), ("out", j, "amount-"), ("out", j, "script0"), ("out", j, "script-1"), ("out", j, "empty")]
     for p in range(n_in + 1):
@@ -104,6 +107,10 @@ def apply_mutation(tx, mu):
             ti.previous_hash = flip(ti.previous_hash, 0, 1)
         elif f == "hash255":
             ti.previous_hash = flip(ti.previous_hash, 31, 0x80)
+        elif f == "hashzero":
+            ti.previous_hash = bytes(32)           # half of the coinbase outpoint
+        elif f == "indexmax":
+            ti.previous_index = 0xffffffff         # the other half
         elif f == "index+":
             ti.previous_index = (ti.previous_index + 1) & 0xffffffff
         elif f == "index-":
@@ -250,6 +257,11 @@ class Mutations(Driver):
                     yield dict(coin=coin, kind=kind, ht=ht, few=False)
                     if kind in ("p2pkh", "p2wpkh", "p2sh_ms", "p2wsh_ms"):
                         yield dict(coin=coin, kind=kind, ht=ht, few=True)
+        # one-input transactions
+        for coin in self.coins:
+            for kind in ("p2pkh", "p2sh_ms", "p2wpkh", "p2pk"):
+                for ht in (1, 0x83):
+                    yield dict(coin=coin, kind=kind, ht=ht, few=False, solo=True)
         # cosigners of one multisig input using different hash types (each signature commits by its own type)
         for coin in self.coins:
             for kind in ("ms", "p2sh_ms", "p2wsh_ms") if self.tier == "quick" else c05.MS_KINDS:
@@ -262,12 +274,12 @@ class Mutations(Driver):
 
     def execute(self, u):
         try:
-            sc0 = Signed(u["coin"], u["kind"], u["ht"], self.seed, u["few"])
+            sc0 = Signed(u["coin"], u["kind"], u["ht"], self.seed, u["few"], u.get("solo", False))
             n_in, n_out = len(sc0.tx.txs_in), len(sc0.tx.txs_out)
         except Exception as e:
             yield dict(u, mu=None), BAD("setup", "scenario signs", "EXC %s: %s" % (type(e).__name__, e), clause="setup")
             return
-        mus = [[m] for m in mutation_list(n_in, n_out)]
+        mus = [[m] for m in mutation_list(n_in, n_out) if not (n_in == 1 and m[0] == "ins-delete")]    # a transaction keeps >= 1 input (C07)
         if self.tier == "thorough" and not u["few"]:
             small = [m for m in mutation_list(n_in, n_out) if m[0] in ("version", "in", "out", "unspent", "outs-swap", "swap-unlock")]
             mus += [[a, b] for a, b in itertools.combinations(small[::3], 2)]
@@ -283,7 +295,7 @@ class Mutations(Driver):
         coin = u["coin"]
         try:
             if sc is None:
-                sc = Signed(coin, u["kind"], u["ht"], u.get("seed", self.seed), u["few"])
+                sc = Signed(coin, u["kind"], u["ht"], u.get("seed", self.seed), u["few"], u.get("solo", False))
         except Exception as e:
             return BAD("setup", "scenario signs", "EXC %s: %s" % (type(e).__name__, e), clause="setup")
         tx = sc.tx
